@@ -53,6 +53,9 @@ def build_harness():
     """go build the harness against /repo's working tree with the verif hooks enabled."""
     with Lock("go"):
         shutil.copyfile(os.path.join(REPO, "go.sum"), os.path.join(HARNESS, "go.sum"))
+        if REPO != "/repo":
+            # a background run against a snapshot of the repository: point the harness module at it
+            sh(["go", "mod", "edit", "-replace", "go.brendoncarroll.net/p2p=" + REPO], cwd=HARNESS, env=GOENV, timeout=60)
         os.makedirs(os.path.join(HARNESS, "bin"), exist_ok=True)
         if not os.path.isdir(os.path.join(HARNESS, "evilssh")):
             sh([os.path.join(HARNESS, "evilssh_src", "gen.sh")], cwd=HARNESS, env=GOENV, timeout=300)
